@@ -5,13 +5,21 @@
 package main
 
 import (
+	"os"
+
 	"verifharness/hv"
 )
 
 func main() {
 	defer hv.Flush()
 	r := hv.NewRand(hv.Seed())
-	genUnwrap(r)
-	genRecv(r)
-	genSend(r)
+	only := os.Getenv("C08_ONLY") // debugging aid: "net" or "white"
+	if only != "net" {
+		genUnwrap(r)
+		genRecv(r)
+		genSend(r)
+	}
+	if only != "white" {
+		genNet(r)
+	}
 }
